@@ -23,6 +23,14 @@ CHECK = {
     "opts": {"unwind": 8, "substitute": SUB},
     "stop": [k for k in SUB.keys() if not k.startswith("time.")],
     "timeout_ms": {"quick": 400000, "thorough": 1800000},
-    "explanation": "TODO",
-    "bounds": {},
+    "explanation": "One inductive step over the replicator. The real (*replicatorActor).Receive -> handleMessage is executed symbolically for one arbitrary message from an arbitrary state satisfying Inv = 'a tombstoned key has no value in the store', one job per message kind: "
+                   "handleUpdate, handleGet (incl. coordinatedRead, targetCount, selectPeers), handleDelete (incl. coordinatedTombstone), handleDelta, handleProtoDelta/decodeDelta, handleProtoTombstone, handleFullState, handleIncomingBatch, handlePrune, plus trackKey, publishDelta/encodeDelta, coordinatedWrite, notifyChanged and the real codec.DecodeCRDTKey/EncodeCRDTKey and crdt.Config. "
+                   "Pre-state: each of the keys k1,k2,k3 is absent, live (arbitrary value/version) or tombstoned (arbitrary deletedAt, local or remote deleter, key type remembered or not); TombstoneTTL is any positive duration; cross-DC buffering on or off. "
+                   "Messages: any key of the universe, nil / unspecified / out-of-range wire keys, any coordination level (none, majority, all), deltas from this or another node, batches from this or another data centre with 0..1 delta and 0..1 tombstone, full states with 0..2 entries. "
+                   "Asserted after the step: Inv; a Get of a tombstoned key answers without a value; a tombstone disappears only in the prune tick and only if now - deletedAt > TombstoneTTL, and the prune tick keeps every tombstone that has not expired. vC41_init: Inv holds for a freshly started replicator (PreStart creates an empty tombstone map, so a snapshot restore cannot violate it; restoreFromSnapshot itself needs a bbolt store and is not encoded). "
+                   "Substituted (environment): time.Now (harness clock, arbitrary non-decreasing), (*ReceiveContext).Response (recorder) and Tell (no-op), pathToAddress, ddata.DecodeCRDT / ddata.EncodeCRDT (opaque value codec: any value or an error), cluster.Peers (error / none / one peer), remoting RemoteLookup / RemoteAsk / RemoteTell (the peer may answer with any value for any key, i.e. it may not have applied the tombstone yet). CRDT values are an opaque harness type whose Merge is max. "
+                   "One step from every Inv-state covers every interleaving of update, delete, delta, tombstone, anti-entropy and read messages on one replica; the property's cross-replica part (a replica that has received the tombstone) is exactly Inv on that replica.",
+    "bounds": {"keys": "3 (k1,k2,k3), each absent / live / tombstoned", "full state entries": "0..2", "batch": "0..1 delta + 0..1 tombstone", "peers": "0..1", "clock, deletedAt": "< 2^61 ns", "ttl": "(0, 2^60) ns"},
+    "assumptions": ["map iteration order is insertion order (Go's randomisation is not modelled)", "time.Time is abstracted to its int64 nanosecond reading",
+                    "restoreFromSnapshot (bbolt) is not encoded: Inv after a restart is argued from PreStart creating an empty tombstone map (vC41_init)"],
 }
